@@ -386,13 +386,14 @@ func (p *c10pkg[E, P, D]) precompFlag(d *D) bool {
 func (p *c10pkg[E, P, D]) ReadBytes(chunk int, data []byte) string {
 	d, n, err := p.readFrom(&chunkReader{bytes.NewReader(data), chunk})
 	if err != nil {
+		// the count returned with the error = the bytes taken from the reader
 		switch {
 		case strings.Contains(err.Error(), "EOF"):
-			return "err:eof"
+			return fmt.Sprintf("err:eof %x", n)
 		case strings.Contains(err.Error(), "invalid"):
-			return "err:range"
+			return fmt.Sprintf("err:range %x", n)
 		}
-		return "err:other"
+		return fmt.Sprintf("err:other %x", n)
 	}
 	card, f := p.fields(d)
 	return fmt.Sprintf("%x %x %s %s %s %s %s %s", n, card, hexBig(p.big(f[0])), hexBig(p.big(f[1])), hexBig(p.big(f[2])),
